@@ -14,7 +14,7 @@ OpsMem ==
   {[op |-> "touch", k |-> k] : k \in AllKeys} \cup
   {[op |-> "remove", k |-> k] : k \in AllKeys} \cup
   {[op |-> "evict_tail"], [op |-> "reset"]} \cup
-  {[op |-> "evict_to_target", n |-> n] : n \in 1..2}
+  {[op |-> "evict_to_target", n |-> n] : n \in 0..2}     \* a target of 0 bytes evicts nothing
 
 OpsDisk ==
   {[op |-> "touch", k |-> k] : k \in AllKeys} \cup
